@@ -155,10 +155,12 @@ class eval_abs(object):
         self.func_write = func_write
         if log is None:
             log = logging.getLogger("expr_eval_int")
-            console_handler = logging.StreamHandler()
-            console_handler.setFormatter(logging.Formatter("%(levelname)-5s: %(message)s"))
-            log.addHandler(console_handler)
-            log.setLevel(logging.WARN)
+            if not log.handlers:
+                # the logger is shared by every machine: configure it once
+                console_handler = logging.StreamHandler()
+                console_handler.setFormatter(logging.Formatter("%(levelname)-5s: %(message)s"))
+                log.addHandler(console_handler)
+                log.setLevel(logging.WARN)
         self.log = log
 
     def to_file(self, f):
@@ -174,10 +176,11 @@ class eval_abs(object):
         import cPickle
         m = cPickle.load(f)
         log = logging.getLogger("expr_eval_int")
-        console_handler = logging.StreamHandler()
-        console_handler.setFormatter(logging.Formatter("%(levelname)-5s: %(message)s"))
-        log.addHandler(console_handler)
-        log.setLevel(logging.WARN)
+        if not log.handlers:
+            console_handler = logging.StreamHandler()
+            console_handler.setFormatter(logging.Formatter("%(levelname)-5s: %(message)s"))
+            log.addHandler(console_handler)
+            log.setLevel(logging.WARN)
         m.log = log
         new_pool = mpool()
         for x in m.pool:
